@@ -67,9 +67,11 @@ HIST_STMTS = [
     'if True:\n    class A:\n        pass\nelse:\n    class A:\n        def other(self): pass',
     'try:\n    from p.m1 import f\nexcept ImportError:\n    def f(): pass',
     'class D(A.N):\n    pass',
+    'class p:\n    """class named like the package"""\n    def m(self): pass',
+    'class m1:\n    pass',
     'A.__doc__ = "late doc"',
 ]
-MODNAMES = ['m1', 'm2', 'm3', '_m4']
+MODNAMES = ['m1', 'm2', 'm3', '_m4', 'p']
 
 
 def st_module():
@@ -86,12 +88,21 @@ def st_project():
         n = draw(st.integers(2, 4))
         mods = []
         mods.append(('p', None, True, draw(st.one_of(st.just(''), st_module()))))
-        for name in MODNAMES[:n]:
+        for name in draw(st.permutations(MODNAMES))[:n]:
             mods.append((name, 'p', False, draw(st.one_of(st_module(), st_module(), st_module(), pysource.modules(max_stmts=5)))))
         if draw(st.integers(0, 3)) == 0:
             mods.append(('q', None, True, draw(st_module()).replace('p.', 'q.')))
             mods.append(('m1', 'q', False, draw(st_module())))
-        order = draw(st.permutations(list(range(1, len(mods))))) if draw(st.booleans()) else None
+        # reachable schedules only: a package before its modules; siblings and roots in any order
+        order = None
+        if draw(st.booleans()):
+            groups: Dict[Optional[str], List[int]] = {}
+            for i, m in enumerate(mods):
+                groups.setdefault(m[1], []).append(i)
+            order = []
+            for r in draw(st.permutations(groups.get(None, []))):
+                order.append(r)
+                order.extend(draw(st.permutations(groups.get(mods[r][0], []))))
         return {'kind': 'project', 'mods': [list(m) for m in mods], 'order': order}
     return p()
 
@@ -219,8 +230,7 @@ def check_project(case: Dict[str, Any]) -> Tuple[List[Tuple[str, str]], Dict[str
         b.addModuleString(src, name, parent_name=parent, is_package=ispkg)
     if case.get('order'):
         byidx = {i: m for i, m in enumerate(list(s.unprocessed_modules))}
-        # roots/packages first (index 0 is package p), then the requested order of the others
-        neworder = [byidx[0]] + [byidx[i] for i in case['order'] if i in byidx]
+        neworder = [byidx[i] for i in case['order'] if i in byidx]
         rest = [m for m in s.unprocessed_modules if m not in neworder]
         s.unprocessed_modules[:] = neworder + rest
     info: Dict[str, Any] = {}
@@ -229,8 +239,10 @@ def check_project(case: Dict[str, Any]) -> Tuple[List[Tuple[str, str]], Dict[str
             s.process()
     except Exception as e:
         import traceback
+        # an uncaught exception is C01's business (its generator and the coverage-guided stage look for them); here it
+        # only means that there is no final state to check
         info['crashed'] = '%s: %s %s' % (type(e).__name__, e, traceback.format_exc()[-400:])
-        return [('analysis-raises:%s' % type(e).__name__, 'analysis raised %s: %s\n%s' % (type(e).__name__, e, traceback.format_exc()[-900:]))], info
+        return [], info
     info['moved'], info['dup'] = _has_history(s)
     desc = 'modules:\n' + '\n'.join('--- %s%s\n%s' % ((m[1] + '.' if m[1] else ''), m[0], m[3]) for m in case['mods']) + ('\norder %s' % case.get('order'))
     return [(sig, desc + '\n-> ' + msg) for sig, msg in invariants(s, True)], info
@@ -396,6 +408,10 @@ def work(item: Dict[str, Any]) -> Acc:
     if item['kind'] == 'projects':
         def body(c):
             d, info = check_project(c)
+            if info.get('crashed'):
+                acc.inconclusive += 1
+                acc.notes.setdefault('crash_example', info['crashed'][:400])
+                return
             classes = ['project']
             if info.get('moved'):
                 classes.append('with-move')
